@@ -141,6 +141,8 @@ package engine
 //@   modifies everything except f:engine.Config., f:engine.DefaultEngine.vm, f:engine.DefaultEngine.st, f:engine.DefaultEngine.ca, f:engine.DefaultEngine.rs, f:engine.DefaultEngine.initd, f:engine.DefaultEngine.first, f:engine.DefaultEngine.pe, f:engine.DefaultEngine.dbg, f:engine.DefaultEngine.regexCount, f:state.State.BitSize, f:state.State.Flags, f:render.Sizer.outputSize, count(extcalls), count(codegets), count(written)
 //@   postulate[C08] @lockstep result1 == nil ==> vm.lockstep(en.vm)
 //@   ensures @quiet result0 && result1 == nil ==> unchanged(en.execd, en.exit, en.exiting)
+// the temporary stack level of the entry function does not cost the session its page index (C07)
+//@   ensures[C07,C02] @pagekept en.st.SizeIdx == old(en.st.SizeIdx)
 //@   postulate result1 == nil ==> engOk(en)
 //@   ensures @nofirst en.first == nil ==> result0 && result1 == nil
 //@   ensures[C06] @blocked old(fl(en, state.FLAG_TERMINATE)) ==> count(extcalls) == old(count(extcalls)) && count(codegets) == old(count(codegets))
